@@ -107,7 +107,7 @@ theorem limitless_bracket_propagates_cpu (a : Acc) (d : CtxDef) (body : List Ite
     (hk : (runBody { a with st := push a.st d } body).2 = .killed .cpu) :
     (runItem a (.call d body)).2 = .killed .cpu ∧
     (runItem a (.call d body)).1.st.cur.status = StatusKilled ∧
-    (runItem a (.call d body)).1.st.parents = a.st.parents ∧
+    LowerL (runItem a (.call d body)).1.st.parents a.st.parents ∧
     (runItem a (.call d body)).1.events = (runBody { a with st := push a.st d } body).1.events ∧
     (runItem a (.call d body)).1.results = (runBody { a with st := push a.st d } body).1.results := by
   have gb := good_body { a with st := push a.st d } body hw (inv_step (.push d) hi hl) rfl
@@ -115,36 +115,54 @@ theorem limitless_bracket_propagates_cpu (a : Acc) (d : CtxDef) (body : List Ite
   | mk a1 ex =>
     rw [hr] at gb hk
     simp only at hk; subst hk
-    obtain ⟨hc2, hcp, hp, hrest, hrun⟩ := call_unfold a d body a1 _ hr gb hl
+    obtain ⟨p', ps', _, hlp, hlps, hc2, hcp, hp, hpl, hrest, hrun⟩ := call_unfold a d body a1 _ hr gb hl
     have hsame := afterBody_same (Exit.killed .cpu) a1.st
-    have hhard : (afterBody (Exit.killed .cpu) a1.st).cur.hard.Cpu = (a.st.cur.hard.Remove a.st.cur.used).Cpu := by
-      rw [hsame.2.1, gb.hard]; exact child_inherits_cpu a.st.cur d hd
-    have hfire := propagate_cpu_fires (c := (afterBody (Exit.killed .cpu) a1.st).cur) hp hl hL hhard
+    have hps := hlp.same
+    have hhard : (afterBody (Exit.killed .cpu) a1.st).cur.hard.Cpu = (p'.hard.Remove p'.used).Cpu := by
+      rw [hsame.2.1, gb.hard]
+      have : (a.st.cur.child d).hard.Cpu = (a.st.cur.hard.Remove a.st.cur.used).Cpu := child_inherits_cpu a.st.cur d hd
+      show (a.st.cur.child d).hard.Cpu = _
+      rw [this]
+      apply BitVec.eq_of_toNat_eq; rw [Remove_Cpu, Remove_Cpu, hps.1, hps.2.2.2.2.2.2.2.1]
+    have hfire := propagate_cpu_fires (c := (afterBody (Exit.killed .cpu) a1.st).cur) hp hpl
+      (by rw [hps.1]; exact hL) hhard
     rw [hrun, afterPop_killed_fire _ _ _ _ _ _ hfire]
-    exact ⟨rfl, rfl, rfl, rfl, rfl⟩
+    exact ⟨rfl, rfl, hlps, rfl, rfl⟩
 
-/-- the same for memory -/
+/-- the same for memory — provided the body did not release memory of the enclosing context: a
+release that cascades into the parent (8007e69) leaves the bracket with a limit that is no longer
+"all the parent has left", and the test of propagateTermination (an equality) then fails: see
+`stale_limit_absorbs_counterexample` in Props/C06. -/
 theorem limitless_bracket_propagates_mem (a : Acc) (d : CtxDef) (body : List Item) (hw : wfBody body = true)
     (hi : Inv a.st) (hl : a.st.cur.live = true) (hd : d.hard.Memory = 0#64) (hL : a.st.cur.hard.Memory ≠ 0#64)
-    (hk : (runBody { a with st := push a.st d } body).2 = .killed .mem) :
+    (hk : (runBody { a with st := push a.st d } body).2 = .killed .mem)
+    (hund : ∀ p' ps', (runBody { a with st := push a.st d } body).1.st.parents = p' :: ps' →
+      p'.used.Memory = a.st.cur.used.Memory) :
     (runItem a (.call d body)).2 = .killed .mem ∧
     (runItem a (.call d body)).1.st.cur.status = StatusKilled ∧
-    (runItem a (.call d body)).1.st.parents = a.st.parents ∧
+    LowerL (runItem a (.call d body)).1.st.parents a.st.parents ∧
     (runItem a (.call d body)).1.events = (runBody { a with st := push a.st d } body).1.events ∧
     (runItem a (.call d body)).1.results = (runBody { a with st := push a.st d } body).1.results := by
   have gb := good_body { a with st := push a.st d } body hw (inv_step (.push d) hi hl) rfl
   cases hr : runBody { a with st := push a.st d } body with
   | mk a1 ex =>
-    rw [hr] at gb hk
+    rw [hr] at gb hk hund
     simp only at hk; subst hk
-    obtain ⟨hc2, hcp, hp, hrest, hrun⟩ := call_unfold a d body a1 _ hr gb hl
+    obtain ⟨p', ps', hpe, hlp, hlps, hc2, hcp, hp, hpl, hrest, hrun⟩ := call_unfold a d body a1 _ hr gb hl
     have hsame := afterBody_same (Exit.killed .mem) a1.st
-    have hhard : (afterBody (Exit.killed .mem) a1.st).cur.hard.Memory =
-        (a.st.cur.hard.Remove a.st.cur.used).Memory := by
-      rw [hsame.2.1, gb.hard]; exact child_inherits_mem a.st.cur d hd
-    have hfire := propagate_mem_fires (c := (afterBody (Exit.killed .mem) a1.st).cur) hp hl hL hhard
+    have hps := hlp.same
+    have hum := hund p' ps' hpe
+    have hhard : (afterBody (Exit.killed .mem) a1.st).cur.hard.Memory = (p'.hard.Remove p'.used).Memory := by
+      rw [hsame.2.1, gb.hard]
+      have : (a.st.cur.child d).hard.Memory = (a.st.cur.hard.Remove a.st.cur.used).Memory :=
+        child_inherits_mem a.st.cur d hd
+      show (a.st.cur.child d).hard.Memory = _
+      rw [this]
+      apply BitVec.eq_of_toNat_eq; rw [Remove_Memory, Remove_Memory, hps.1, hum]
+    have hfire := propagate_mem_fires (c := (afterBody (Exit.killed .mem) a1.st).cur) hp hpl
+      (by rw [hps.1]; exact hL) hhard
     rw [hrun, afterPop_killed_fire _ _ _ _ _ _ hfire]
-    exact ⟨rfl, rfl, rfl, rfl, rfl⟩
+    exact ⟨rfl, rfl, hlps, rfl, rfl⟩
 
 /-- **A child with a tighter limit of its own dies alone**: if the bracket's own CPU limit is
 strictly below what the parent has left (or the parent is not CPU-limited) and its body is
@@ -155,7 +173,7 @@ theorem own_limit_dies_alone (a : Acc) (d : CtxDef) (body : List Item) (hw : wfB
     (htight : a.st.cur.hard.Cpu = 0#64 ∨ d.hard.Cpu.toNat < a.st.cur.hard.Cpu.toNat - a.st.cur.used.Cpu.toNat)
     (hk : (runBody { a with st := push a.st d } body).2 = .killed .cpu) :
     (runItem a (.call d body)).2 = .done ∧ (runItem a (.call d body)).1.st.cur.live = true ∧
-    (runItem a (.call d body)).1.st.parents = a.st.parents ∧
+    LowerL (runItem a (.call d body)).1.st.parents a.st.parents ∧
     ∃ r, (runItem a (.call d body)).1.results = r :: (runBody { a with st := push a.st d } body).1.results ∧
       r.status = StatusKilled ∧ r.exit = .killed .cpu := by
   have gb := good_body { a with st := push a.st d } body hw (inv_step (.push d) hi hl) rfl
@@ -163,10 +181,13 @@ theorem own_limit_dies_alone (a : Acc) (d : CtxDef) (body : List Item) (hw : wfB
   | mk a1 ex =>
     rw [hr] at gb hk
     simp only at hk; subst hk
-    obtain ⟨hc2, hcp, hp, hrest, hrun⟩ := call_unfold a d body a1 _ hr gb hl
+    obtain ⟨p', ps', _, hlp, hlps, hc2, hcp, hp, hpl, hrest, hrun⟩ := call_unfold a d body a1 _ hr gb hl
     have hsame := afterBody_same (Exit.killed .cpu) a1.st
-    have hs := charged_same a.st.cur (afterBody (Exit.killed .cpu) a1.st).cur
+    have hps := hlp.same
+    have hs := charged_same p' (afterBody (Exit.killed .cpu) a1.st).cur
     have hpp := popped_same (afterBody (Exit.killed .cpu) a1.st).cur
+    have htight' : p'.hard.Cpu = 0#64 ∨ d.hard.Cpu.toNat < p'.hard.Cpu.toNat - p'.used.Cpu.toNat := by
+      rw [hps.1, hps.2.2.2.2.2.2.2.1]; exact htight
     -- the child's hard limit is its own
     have hch : (afterBody (Exit.killed .cpu) a1.st).cur.hard.Cpu = d.hard.Cpu := by
       rw [hsame.2.1, gb.hard]
@@ -178,23 +199,23 @@ theorem own_limit_dies_alone (a : Acc) (d : CtxDef) (body : List Item) (hw : wfB
         · left; apply BitVec.eq_of_toNat_eq; rw [Remove_Cpu, h0]; simp
         · right; rw [Remove_Cpu]; exact hlt
       rw [this]; rfl
-    have hnofire : (charged a.st.cur (afterBody (Exit.killed .cpu) a1.st).cur).propagate
+    have hnofire : (charged p' (afterBody (Exit.killed .cpu) a1.st).cur).propagate
         (afterBody (Exit.killed .cpu) a1.st).cur.popped .cpu =
-        (charged a.st.cur (afterBody (Exit.killed .cpu) a1.st).cur, .ok) := by
+        (charged p' (afterBody (Exit.killed .cpu) a1.st).cur, .ok) := by
       simp only [Frame.propagate]
-      rcases htight with h0 | hlt
-      · have : BitVec.ult 0#64 (charged a.st.cur (afterBody (Exit.killed .cpu) a1.st).cur).hard.Cpu = false := by
+      rcases htight' with h0 | hlt
+      · have : BitVec.ult 0#64 (charged p' (afterBody (Exit.killed .cpu) a1.st).cur).hard.Cpu = false := by
           rw [hs.1, h0]; rfl
         rw [this]; rfl
-      · have hL : a.st.cur.hard.Cpu ≠ 0#64 := by rw [ne_zero_iff]; omega
-        have hu : a.st.cur.used.Cpu.toNat < a.st.cur.hard.Cpu.toNat := by
+      · have hL : p'.hard.Cpu ≠ 0#64 := by rw [ne_zero_iff]; omega
+        have hu : p'.used.Cpu.toNat < p'.hard.Cpu.toNat := by
           rcases hp.cpu with h | h
           · exact absurd h hL
           · exact h
-        have hcu := charged_used_cpu a.st.cur (afterBody (Exit.killed .cpu) a1.st).cur (hp.tcpu hL)
+        have hcu := charged_used_cpu p' (afterBody (Exit.killed .cpu) a1.st).cur (hp.tcpu hL)
         have hne : ((afterBody (Exit.killed .cpu) a1.st).cur.popped.hard.Cpu ==
-            (charged a.st.cur (afterBody (Exit.killed .cpu) a1.st).cur).hard.Cpu -
-              ((charged a.st.cur (afterBody (Exit.killed .cpu) a1.st).cur).used.Cpu -
+            (charged p' (afterBody (Exit.killed .cpu) a1.st).cur).hard.Cpu -
+              ((charged p' (afterBody (Exit.killed .cpu) a1.st).cur).used.Cpu -
                 (afterBody (Exit.killed .cpu) a1.st).cur.popped.used.Cpu)) = false := by
           rw [hpp.1, hpp.2, hs.1, hcu, BitVec.add_sub_cancel, hch]
           apply beq_false_of_ne
@@ -203,10 +224,10 @@ theorem own_limit_dies_alone (a : Acc) (d : CtxDef) (body : List Item) (hw : wfB
           rw [BitVec.toNat_sub_of_le (by simpa [BitVec.le_def] using Nat.le_of_lt hu)] at this
           omega
         rw [hne]; simp
-    have hlive3 : (charged a.st.cur (afterBody (Exit.killed .cpu) a1.st).cur).live = true := by
-      unfold Frame.live; rw [hs.2.2.2.1]; exact hl
+    have hlive3 : (charged p' (afterBody (Exit.killed .cpu) a1.st).cur).live = true := by
+      unfold Frame.live; rw [hs.2.2.2.1]; exact hpl
     rw [hrun, afterPop_killed_nofire _ _ _ _ _ _ hnofire]
-    refine ⟨rfl, hlive3, rfl, _, rfl, ?_, rfl⟩
+    refine ⟨rfl, hlive3, hlps, _, rfl, ?_, rfl⟩
     show (afterBody (Exit.killed .cpu) a1.st).cur.popped.status = StatusKilled
     have hk := gb.killed .cpu rfl
     rw [hsame.2.2.2.2 (fun c => nomatch c)]
@@ -274,9 +295,9 @@ theorem EvOk.thenKill {a b c : Acc} (h1 : EvOk a b) (h2 : EvKill b c) : EvKill a
 structure Exact (a : Acc) (cost : Nat) (r : Acc × Exit) : Prop where
   survive : a.st.cur.used.Cpu.toNat + cost < a.st.cur.hard.Cpu.toNat →
     r.2 = .done ∧ Metered r.1.st.cur ∧ r.1.st.cur.used.Cpu.toNat = a.st.cur.used.Cpu.toNat + cost ∧
-    r.1.st.cur.hard = a.st.cur.hard ∧ r.1.st.parents = a.st.parents ∧ Inv r.1.st ∧ EvOk a r.1
+    r.1.st.cur.hard = a.st.cur.hard ∧ LowerL r.1.st.parents a.st.parents ∧ Inv r.1.st ∧ EvOk a r.1
   die : a.st.cur.hard.Cpu.toNat ≤ a.st.cur.used.Cpu.toNat + cost →
-    r.2 = .killed .cpu ∧ r.1.st.cur.status = StatusKilled ∧ r.1.st.parents = a.st.parents ∧ EvKill a r.1
+    r.2 = .killed .cpu ∧ r.1.st.cur.status = StatusKilled ∧ LowerL r.1.st.parents a.st.parents ∧ EvKill a r.1
 
 theorem child_none_metered {p : Frame} (hp : Metered p) (hpo : FrameOk p) :
     Metered (p.child CtxDef.none) ∧
@@ -299,7 +320,7 @@ mutual
     match body with
     | [] =>
       constructor
-      · intro _; exact ⟨rfl, hm, by simp [bodyCost, runBody], rfl, rfl, hi, EvOk.refl a⟩
+      · intro _; exact ⟨rfl, hm, by simp [bodyCost, runBody], rfl, LowerL.refl _, hi, EvOk.refl a⟩
       · intro h; have := hm.below; simp [bodyCost] at h; omega
     | it :: rest =>
       have hw' : it.pcallCpu = true ∧ bodyPcallCpu rest = true := by
@@ -355,7 +376,7 @@ mutual
           constructor
           · intro h; omega
           · intro _
-            refine ⟨?_, rfl, rfl, ⟨⟨_, _, .terminated⟩, [], rfl, rfl, fun _ h => nomatch h⟩⟩
+            refine ⟨?_, rfl, LowerL.refl _, ⟨⟨_, _, .terminated⟩, [], rfl, rfl, fun _ h => nomatch h⟩⟩
             show Exit.killed (killCause a.st.cur (.reqCpu n)) = _
             simp [killCause, hm.nostop]
         · have hinv' : Inv ⟨(a.st.cur.requireCPU n).1, a.st.parents⟩ := hinv
@@ -366,7 +387,7 @@ mutual
             simp only
             constructor
             · intro _
-              exact ⟨rfl, hm', hu, hh, rfl, hinv', ⟨[⟨_, _, .ok⟩], rfl, fun e he => by
+              exact ⟨rfl, hm', hu, hh, LowerL.refl _, hinv', ⟨[⟨_, _, .ok⟩], rfl, fun e he => by
                 simp only [List.mem_singleton] at he; rw [he]⟩⟩
             · intro h; omega
       | push d => simp [Item.pcallCpu] at hw
@@ -402,27 +423,31 @@ mutual
         | mk a1 ex =>
           rw [hr] at hd hm1 hu1 hh1 hp1 hi1 hev1 gb
           simp only at hd; subst hd
-          obtain ⟨hc2, hcp, hp, hrest, hrun⟩ := call_unfold a CtxDef.none body a1 _ hr gb hm.live
+          obtain ⟨p', ps', _, hlp, hlps, hc2, hcp, hp, hpl, hrest, hrun⟩ :=
+            call_unfold a CtxDef.none body a1 _ hr gb hm.live
           have hab : afterBody Exit.done a1.st = a1.st := (afterBody_same Exit.done a1.st).2.2.2.2 (fun c => nomatch c)
           rw [hab] at hc2 hcp hrun
-          have hdone : afterPop a1 Exit.done a1.st (charged a.st.cur a1.st.cur) a.st.parents =
-              ({ a1 with st := ⟨charged a.st.cur a1.st.cur, a.st.parents⟩,
+          have hdone : afterPop a1 Exit.done a1.st (charged p' a1.st.cur) ps' =
+              ({ a1 with st := ⟨charged p' a1.st.cur, ps'⟩,
                          results := mkResult Exit.done a1.st :: a1.results }, Exit.done) := rfl
           rw [hrun, hdone]
-          have hs := charged_same a.st.cur a1.st.cur
-          have hsum := (charge_cpu_below hc2 hp hcp).2 hm.lim
-          have hcuv := charged_used_cpu a.st.cur a1.st.cur hm.track
+          have hps := hlp.same
+          have hs := charged_same p' a1.st.cur
+          have hlim' : p'.hard.Cpu ≠ 0#64 := by rw [hps.1]; exact hm.lim
+          have hsum := (charge_cpu_below hc2 hp hcp).2 hlim'
+          have hcuv := charged_used_cpu p' a1.st.cur (by rw [hps.2.2.2.2.2.1]; exact hm.track)
           have hu1' : a1.st.cur.used.Cpu.toNat = bodyCost body := by rw [hu1, hcu0]; omega
-          have hused : (charged a.st.cur a1.st.cur).used.Cpu.toNat = a.st.cur.used.Cpu.toNat + bodyCost body := by
-            rw [hcuv, hsum, hu1']
-          have hinv3 : Inv ⟨charged a.st.cur a1.st.cur, a.st.parents⟩ :=
+          have hused : (charged p' a1.st.cur).used.Cpu.toNat = a.st.cur.used.Cpu.toNat + bodyCost body := by
+            rw [hcuv, hsum, hu1', hps.2.2.2.2.2.2.2.1]
+          have hinv3 : Inv ⟨charged p' a1.st.cur, ps'⟩ :=
             ⟨charged_frameOk hc2 hp hcp, chainInv_congr hs.1 hs.2.2.1 hrest⟩
-          refine ⟨rfl, ⟨?_, ?_, ?_, ?_, ?_⟩, hused, hs.1, rfl, hinv3, ?_⟩
-          · unfold Frame.live; rw [hs.2.2.2.1]; exact hm.live
-          · unfold Frame.hardStopped; rw [hs.2.2.2.2.1]; exact hm.nostop
-          · rw [hs.2.2.2.2.2.1]; exact hm.track
-          · rw [hs.1]; exact hm.lim
-          · rw [hs.1, hused]; exact hlt
+          have hh3 : (charged p' a1.st.cur).hard = a.st.cur.hard := hs.1.trans hps.1
+          refine ⟨rfl, ⟨?_, ?_, ?_, ?_, ?_⟩, hused, hh3, hlps, hinv3, ?_⟩
+          · unfold Frame.live; rw [hs.2.2.2.1]; exact hpl
+          · unfold Frame.hardStopped; rw [hs.2.2.2.2.1, hps.2.2.2.2.1]; exact hm.nostop
+          · rw [hs.2.2.2.2.2.1, hps.2.2.2.2.2.1]; exact hm.track
+          · rw [hh3]; exact hm.lim
+          · rw [hh3, hused]; exact hlt
           · obtain ⟨new, en, on⟩ := hev1
             exact ⟨new, en, on⟩
       · intro hge
@@ -432,6 +457,15 @@ mutual
         obtain ⟨k, oks, ek, hkt, hoks⟩ := hev1
         exact ⟨k, oks, by rw [h4]; exact ek, hkt, hoks⟩
 end
+
+theorem runItem_op (a : Acc) (o : Op) :
+    runItem a (.op o) = (({ a with st := (step a.st o).1, events := ⟨a.st.depth, o, (step a.st o).2⟩ :: a.events } : Acc),
+      match (step a.st o).2 with
+      | .ok => Exit.done
+      | .terminated => Exit.killed (killCause a.st.cur o)
+      | .crash => Exit.crashed) := by
+  unfold runItem; simp only; cases (step a.st o).2 <;> rfl
+
 
 /-! ### memory programs: a termination is always a memory termination and cannot be absorbed -/
 
@@ -453,10 +487,38 @@ mutual
       exact ⟨pcallMem_wf it h.1, bodyPcallMem_wf rest h.2⟩
 end
 
-/-- what a run of a memory program guarantees in a memory-limited frame that was not hard-stopped -/
-structure MemRun (r : Acc × Exit) : Prop where
+/-- a release covered by the active context stays in the active context -/
+theorem releaseStack_local (f : Frame) (rest : List Frame) (n : BitVec 64) (h0 : f.hard.Memory ≠ 0#64)
+    (hn : n.toNat ≤ f.used.Memory.toNat) :
+    releaseStack f rest n = (({ f with used := { f.used with Memory := f.used.Memory - n } }, rest), .ok) := by
+  cases rest with
+  | nil =>
+    show (((f.releaseMem n).1, []), (f.releaseMem n).2) = _
+    rcases releaseMem_cases f n with ⟨hz, _⟩ | ⟨_, _, e⟩ | ⟨_, hlt, _⟩
+    · exact absurd hz h0
+    · rw [e]
+    · omega
+  | cons p ps =>
+    unfold releaseStack
+    rw [(ult_zero_iff _).mpr h0, if_pos rfl]
+    have : BitVec.ule n f.used.Memory = true := by simpa [BitVec.ule] using hn
+    rw [this, if_pos rfl]
+
+theorem step_relMem_local (s : St) (n : BitVec 64) (h0 : s.cur.hard.Memory ≠ 0#64)
+    (hn : n.toNat ≤ s.cur.used.Memory.toNat) :
+    step s (.relMem n) =
+      (⟨{ s.cur with used := { s.cur.used with Memory := s.cur.used.Memory - n } }, s.parents⟩, .ok) := by
+  show ((⟨(releaseStack s.cur s.parents n).1.1, (releaseStack s.cur s.parents n).1.2⟩ : St),
+    (releaseStack s.cur s.parents n).2) = _
+  rw [releaseStack_local s.cur s.parents n h0 hn]
+
+/-- what a run of a memory program whose brackets release only their own memory guarantees, in a
+memory-limited frame that was not hard-stopped -/
+structure MemRun (a : Acc) (b' : Nat) (r : Acc × Exit) : Prop where
   nostop : r.1.st.cur.hardStopped = false
   cause : ∀ res, r.2 = .killed res → res = .mem
+  parents : r.1.st.parents = a.st.parents
+  bal : r.2 = .done → b' ≤ r.1.st.cur.used.Memory.toNat
 
 theorem child_none_stop (p : Frame) : (p.child CtxDef.none).hardStopped = p.hardStopped := rfl
 
@@ -467,101 +529,140 @@ theorem child_none_mem_ne {p : Frame} (hpo : FrameOk p) (h0 : p.hard.Memory ≠ 
   · exact absurd h h0
   · omega
 
-theorem local_stop_mem {s : St} (o : Op) (ho : (Item.op o).pcallMem = true) :
-    (step s o).1.cur.hardStopped = s.cur.hardStopped := by
-  cases o with
-  | reqMem n =>
-    show (s.cur.requireMem n).1.hardStopped = _
-    unfold Frame.requireMem Frame.kill Frame.hardStopped; simp only; repeat' split
-    all_goals rfl
-  | relMem n =>
-    show (s.cur.releaseMem n).1.hardStopped = _
-    unfold Frame.releaseMem Frame.hardStopped; repeat' split
-    all_goals rfl
-  | push d => simp [Item.pcallMem] at ho
-  | pop => simp [Item.pcallMem] at ho
-  | reqCpu n => simp [Item.pcallMem] at ho
-  | stop l => simp [Item.pcallMem] at ho
-  | due => simp [Item.pcallMem] at ho
+theorem child_none_mem_le (p : Frame) : (p.child CtxDef.none).hard.Memory.toNat ≤ p.hard.Memory.toNat := by
+  rw [child_inherits_mem p CtxDef.none rfl, Remove_Memory]; omega
 
 mutual
-  theorem memrun_body (a : Acc) (body : List Item) (hw : bodyPcallMem body = true) (hi : Inv a.st)
-      (hl : a.st.cur.live = true) (hs : a.st.cur.hardStopped = false) (h0 : a.st.cur.hard.Memory ≠ 0#64) :
-      MemRun (runBody a body) := by
+  theorem localRel_mono_item {B B' b : Nat} (hle : B ≤ B') (it : Item) (h : it.localRel B' b) : it.localRel B b := by
+    match it with
+    | .op o => cases o <;> first | trivial | (unfold Item.localRel at h ⊢; omega)
+    | .err => trivial
+    | .call d body => unfold Item.localRel at h ⊢; exact localRel_mono_body' hle body h
+  theorem localRel_mono_body' {B B' b : Nat} (hle : B ≤ B') (body : List Item) (h : bodyLocalRel B' b body) :
+      bodyLocalRel B b body := by
     match body with
-    | [] => exact ⟨hs, fun _ h => nomatch h⟩
+    | [] => trivial
+    | it :: rest =>
+      unfold bodyLocalRel at h ⊢; exact ⟨localRel_mono_item hle it h.1, localRel_mono_body' hle rest h.2⟩
+end
+
+def bodyBal (b : Nat) : List Item → Nat
+  | [] => b
+  | it :: rest => bodyBal (it.bal b) rest
+
+mutual
+  theorem memrun_body (B b : Nat) (a : Acc) (body : List Item) (hw : bodyPcallMem body = true)
+      (hlr : bodyLocalRel B b body) (hi : Inv a.st)
+      (hl : a.st.cur.live = true) (hs : a.st.cur.hardStopped = false) (h0 : a.st.cur.hard.Memory ≠ 0#64)
+      (hB : a.st.cur.hard.Memory.toNat ≤ B) (hb : b ≤ a.st.cur.used.Memory.toNat) :
+      MemRun a (bodyBal b body) (runBody a body) := by
+    match body with
+    | [] => exact ⟨hs, (fun _ h => nomatch h), rfl, fun _ => hb⟩
     | it :: rest =>
       have hw' : it.pcallMem = true ∧ bodyPcallMem rest = true := by
         have := hw; unfold bodyPcallMem at this; simpa using this
-      have m1 := memrun_item a it hw'.1 hi hl hs h0
+      have hlr' : it.localRel B b ∧ bodyLocalRel B (it.bal b) rest := by
+        have := hlr; unfold bodyLocalRel at this; exact this
+      have m1 := memrun_item B b a it hw'.1 hlr'.1 hi hl hs h0 hB hb
       have g1 := good_item a it (pcallMem_wf it hw'.1) hi hl
       unfold runBody
+      show MemRun a (bodyBal (it.bal b) rest) _
       cases hr : runItem a it with
       | mk a1 e1 =>
         rw [hr] at m1 g1
         cases e1 with
         | done =>
-          exact memrun_body a1 rest hw'.2 g1.inv (g1.live (fun _ h => nomatch h)) m1.nostop
-            (by rw [g1.hard]; exact h0)
-        | error => exact ⟨m1.nostop, m1.cause⟩
-        | killed r => exact ⟨m1.nostop, m1.cause⟩
-        | crashed => exact ⟨m1.nostop, m1.cause⟩
+          have m2 := memrun_body B (it.bal b) a1 rest hw'.2 hlr'.2 g1.inv (g1.live (fun _ h => nomatch h)) m1.nostop
+            (by rw [g1.hard]; exact h0) (by rw [g1.hard]; exact hB) (m1.bal rfl)
+          exact ⟨m2.nostop, m2.cause, m2.parents.trans m1.parents, m2.bal⟩
+        | error => exact ⟨m1.nostop, m1.cause, m1.parents, (fun h => nomatch h)⟩
+        | killed r => exact ⟨m1.nostop, m1.cause, m1.parents, (fun h => nomatch h)⟩
+        | crashed => exact ⟨m1.nostop, m1.cause, m1.parents, (fun h => nomatch h)⟩
 
-  theorem memrun_item (a : Acc) (it : Item) (hw : it.pcallMem = true) (hi : Inv a.st)
-      (hl : a.st.cur.live = true) (hs : a.st.cur.hardStopped = false) (h0 : a.st.cur.hard.Memory ≠ 0#64) :
-      MemRun (runItem a it) := by
+  theorem memrun_item (B b : Nat) (a : Acc) (it : Item) (hw : it.pcallMem = true) (hlr : it.localRel B b)
+      (hi : Inv a.st)
+      (hl : a.st.cur.live = true) (hs : a.st.cur.hardStopped = false) (h0 : a.st.cur.hard.Memory ≠ 0#64)
+      (hB : a.st.cur.hard.Memory.toNat ≤ B) (hb : b ≤ a.st.cur.used.Memory.toNat) :
+      MemRun a (it.bal b) (runItem a it) := by
     match it with
     | .err => simp [Item.pcallMem] at hw
     | .op o =>
-      have hst := local_stop_mem (s := a.st) o hw
-      unfold runItem
-      simp only
-      cases hout : (step a.st o).2 with
-      | ok => exact ⟨by rw [← hs]; exact hst, fun _ h => nomatch h⟩
-      | crash => exact ⟨by rw [← hs]; exact hst, fun _ h => nomatch h⟩
-      | terminated =>
-        refine ⟨by rw [← hs]; exact hst, fun res h => ?_⟩
-        have : res = killCause a.st.cur o := by injection h with h; exact h.symm
-        rw [this]
-        cases o <;> simp [Item.pcallMem] at hw <;> simp [killCause, hs]
-        -- a release never terminates
-        rename_i n
-        have : (step a.st (.relMem n)).2 ≠ .terminated := by
-          show (a.st.cur.releaseMem n).2 ≠ _
-          rcases releaseMem_cases a.st.cur n with ⟨_, e⟩ | ⟨_, _, e⟩ | ⟨_, _, e⟩ <;> rw [e] <;> exact fun c => nomatch c
-        exact absurd hout this
+      cases o with
+      | reqMem n =>
+        have hn : n.toNat + B ≤ 2 ^ 64 := by unfold Item.localRel at hlr; exact hlr
+        have hu : a.st.cur.used.Memory.toNat < a.st.cur.hard.Memory.toNat := by
+          rcases hi.1.mem with h | h
+          · exact absurd h h0
+          · exact h
+        rw [runItem_op]
+        show MemRun a (b + n.toNat) _
+        have hstep : step a.st (.reqMem n) = (⟨(a.st.cur.requireMem n).1, a.st.parents⟩, (a.st.cur.requireMem n).2) := rfl
+        rw [hstep]
+        rcases requireMem_live a.st.cur n hl with ⟨ht, _⟩ | ⟨_, hk, e⟩ | ⟨_, _, _, e⟩
+        · rw [hi.1.tmem h0] at ht; cases ht
+        · rw [e]
+          refine ⟨hs, fun res h => ?_, rfl, (fun h => nomatch h)⟩
+          simp only at h
+          injection h with h
+          rw [← h]; simp [killCause, hs]
+        · rw [e]
+          refine ⟨hs, (fun _ h => nomatch h), rfl, fun _ => ?_⟩
+          show b + n.toNat ≤ (a.st.cur.used.Memory + n).toNat
+          rw [BitVec.toNat_add, Nat.mod_eq_of_lt (by omega)]; omega
+      | relMem n =>
+        have hn : n.toNat ≤ b := by unfold Item.localRel at hlr; exact hlr
+        rw [runItem_op, step_relMem_local a.st n h0 (by omega)]
+        refine ⟨hs, (fun _ h => nomatch h), rfl, fun _ => ?_⟩
+        show b - n.toNat ≤ (a.st.cur.used.Memory - n).toNat
+        rw [BitVec.toNat_sub_of_le (by simp [BitVec.le_def]; omega)]; omega
+      | push d => simp [Item.pcallMem] at hw
+      | pop => simp [Item.pcallMem] at hw
+      | reqCpu n => simp [Item.pcallMem] at hw
+      | stop l => simp [Item.pcallMem] at hw
+      | due => simp [Item.pcallMem] at hw
     | .call d body =>
       have hw' : d = CtxDef.none ∧ bodyPcallMem body = true := by
         have := hw; unfold Item.pcallMem at this; simpa using this
       obtain ⟨rfl, hwb⟩ := hw'
+      have hlrb : bodyLocalRel B 0 body := by unfold Item.localRel at hlr; exact hlr
       have hwf := bodyPcallMem_wf body hwb
       have hi0 : Inv (push a.st CtxDef.none) := inv_step (.push CtxDef.none) hi hl
-      have mb := memrun_body { a with st := push a.st CtxDef.none } body hwb hi0 rfl hs
-        (child_none_mem_ne hi.1 h0)
+      have mb := memrun_body B 0 { a with st := push a.st CtxDef.none } body hwb hlrb hi0 rfl hs
+        (child_none_mem_ne hi.1 h0) (Nat.le_trans (child_none_mem_le a.st.cur) hB) (Nat.zero_le _)
       have gb := good_body { a with st := push a.st CtxDef.none } body hwf hi0 rfl
+      show MemRun a b _
       cases hr : runBody { a with st := push a.st CtxDef.none } body with
       | mk a1 ex =>
         rw [hr] at mb gb
-        obtain ⟨hc2, hcp, hp, hrest, hrun⟩ := call_unfold a CtxDef.none body a1 ex hr gb hl
+        obtain ⟨p', ps', hpe, hlp, hlps, hc2, hcp, hp, hpl, hrest, hrun⟩ :=
+          call_unfold a CtxDef.none body a1 ex hr gb hl
+        -- no release of the body reached the caller: the frame below the child is the caller's, unchanged
+        have hpar : a1.st.parents = a.st.cur :: a.st.parents := mb.parents
+        have hpp : p' = a.st.cur ∧ ps' = a.st.parents := by
+          rw [hpe] at hpar; injection hpar with h1 h2; exact ⟨h1, h2⟩
+        obtain ⟨rfl, rfl⟩ := hpp
         have hsame := charged_same a.st.cur (afterBody ex a1.st).cur
         have hstop : (charged a.st.cur (afterBody ex a1.st).cur).hardStopped = false := by
           unfold Frame.hardStopped; rw [hsame.2.2.2.2.1]; exact hs
+        have hbal : b ≤ (charged a.st.cur (afterBody ex a1.st).cur).used.Memory.toNat := by
+          rw [charged_used_mem _ _ (hi.1.tmem h0), (charge_mem_below hc2 hp hcp).2 h0]; omega
         cases ex with
         | killed res =>
           have hres := mb.cause res rfl
           subst hres
           have hk : (runBody { a with st := push a.st CtxDef.none } body).2 = .killed .mem := by rw [hr]
-          obtain ⟨h1, h2, _, _, _⟩ := limitless_bracket_propagates_mem a CtxDef.none body hwf hi hl rfl h0 hk
-          refine ⟨?_, fun res h => by rw [h1] at h; injection h with h; exact h.symm⟩
-          -- killing keeps the stop level
-          rw [hrun]
+          have hund : ∀ p' ps', (runBody { a with st := push a.st CtxDef.none } body).1.st.parents = p' :: ps' →
+              p'.used.Memory = a.st.cur.used.Memory := by
+            intro q qs hq; rw [hr] at hq; simp only at hq; rw [hpe] at hq; injection hq with h1 _; rw [← h1]
+          obtain ⟨h1, h2, _, _, _⟩ := limitless_bracket_propagates_mem a CtxDef.none body hwf hi hl rfl h0 hk hund
           have hfire := propagate_mem_fires (c := (afterBody (Exit.killed .mem) a1.st).cur) hp hl h0
             (by rw [(afterBody_same _ a1.st).2.1, gb.hard]; exact child_inherits_mem a.st.cur CtxDef.none rfl)
-          rw [afterPop_killed_fire _ _ _ _ _ _ hfire]
-          exact hstop
-        | done => rw [hrun]; exact ⟨hstop, fun _ h => nomatch h⟩
-        | error => rw [hrun]; exact ⟨hstop, fun _ h => nomatch h⟩
-        | crashed => rw [hrun]; exact ⟨hstop, fun _ h => nomatch h⟩
+          refine ⟨?_, fun res h => by rw [h1] at h; injection h with h; exact h.symm, ?_, fun h => by rw [h1] at h; cases h⟩
+          · rw [hrun, afterPop_killed_fire _ _ _ _ _ _ hfire]; exact hstop
+          · rw [hrun, afterPop_killed_fire _ _ _ _ _ _ hfire]
+        | done => rw [hrun]; exact ⟨hstop, (fun _ h => nomatch h), rfl, fun _ => hbal⟩
+        | error => rw [hrun]; exact ⟨hstop, (fun _ h => nomatch h), rfl, fun _ => hbal⟩
+        | crashed => rw [hrun]; exact ⟨hstop, (fun _ h => nomatch h), rfl, (fun h => nomatch h)⟩
 end
 
 /-! ### two runs of the same memory program under limits `M' ≤ M` -/
@@ -708,89 +809,47 @@ theorem relF_charged {δ : Nat} {p p' c c' : Frame} (hp : RelF δ p p') (hc : c.
 
 def NotKilled (e : Exit) : Prop := ∀ res, e ≠ .killed res
 
-/-- one memory operation in the two runs: if the run under the smaller limit is not terminated,
-the run under the larger limit has the same outcome and the frames stay related -/
-theorem sim_op {δ : Nat} {f f' : Frame} (h : RelF δ f f') (hl' : f'.live = true) (o : Op)
-    (ho : (Item.op o).pcallMem = true) (hnk : (step ⟨f', []⟩ o).2 ≠ .terminated) :
-    (step ⟨f, []⟩ o).2 = (step ⟨f', []⟩ o).2 ∧ RelF δ (step ⟨f, []⟩ o).1.cur (step ⟨f', []⟩ o).1.cur := by
+/-- a memory request in the two runs: if the run under the smaller limit is not terminated, the run
+under the larger limit has the same outcome and the frames stay related -/
+theorem sim_req {δ : Nat} {f f' : Frame} (h : RelF δ f f') (hl' : f'.live = true) (n : BitVec 64)
+    (hnk : (f'.requireMem n).2 ≠ .terminated) :
+    (f.requireMem n).2 = (f'.requireMem n).2 ∧ RelF δ (f.requireMem n).1 (f'.requireMem n).1 := by
   have hl : f.live = true := by rw [h.live]; exact hl'
-  cases o with
-  | reqMem n =>
-    show (f.requireMem n).2 = (f'.requireMem n).2 ∧ RelF δ (f.requireMem n).1 (f'.requireMem n).1
-    have hnk' : (f'.requireMem n).2 ≠ .terminated := hnk
-    rcases requireMem_live f' n hl' with ⟨ht', e'⟩ | ⟨_, _, e'⟩ | ⟨ht', hs', ha', e'⟩
-    · rcases requireMem_live f n hl with ⟨_, e⟩ | ⟨ht, _, _⟩ | ⟨ht, _, _, _⟩
-      · rw [e, e']; exact ⟨rfl, h⟩
-      · rw [h.tm, ht'] at ht; cases ht
-      · rw [h.tm, ht'] at ht; cases ht
-    · rw [e'] at hnk'; exact absurd rfl hnk'
-    · have hb' : (f'.used.Memory + n).toNat < f'.hard.Memory.toNat := by
-        rcases (atLimit_false_iff _ _).mp ha' with h0 | h0
-        · exact absurd h0 h.hmem0
-        · exact h0
-      have ha : atLimit (f.used.Memory + n) f.hard.Memory = false :=
-        (atLimit_false_iff _ _).mpr (Or.inr (by rw [h.used, h.hmem]; omega))
-      have e := requireMem_charge f n hl (by rw [h.hs]; exact hs') ha
-      have e2 := requireMem_charge f' n hl' hs' ha'
-      rw [e, e2]; exact ⟨rfl, relF_chargeMem h n⟩
-  | relMem n =>
-    show (f.releaseMem n).2 = (f'.releaseMem n).2 ∧ RelF δ (f.releaseMem n).1 (f'.releaseMem n).1
-    have hu : f.used.Memory.toNat = f'.used.Memory.toNat := by rw [h.used]
-    rcases releaseMem_cases f' n with ⟨h0, _⟩ | ⟨_, hle', e'⟩ | ⟨_, hlt', e'⟩
-    · exact absurd h0 h.hmem0
-    · rcases releaseMem_cases f n with ⟨h0, _⟩ | ⟨_, _, e⟩ | ⟨_, hlt, _⟩
-      · exact absurd h0 h.hmem_ne
-      · rw [e, e']
-        refine ⟨rfl, ?_, h.status, h.stop, h.flags, h.tc, h.tm, h.hcpu, h.hms, h.scpu, h.sms, h.hmem, h.hmem0⟩
-        show ({ f.used with Memory := f.used.Memory - n } : RuntimeResources) = { f'.used with Memory := f'.used.Memory - n }
-        rw [h.used]
-      · omega
-    · rcases releaseMem_cases f n with ⟨h0, _⟩ | ⟨_, hle, _⟩ | ⟨_, _, e⟩
-      · exact absurd h0 h.hmem_ne
-      · omega
-      · rw [e, e']; exact ⟨rfl, h⟩
-  | push d => simp [Item.pcallMem] at ho
-  | pop => simp [Item.pcallMem] at ho
-  | reqCpu n => simp [Item.pcallMem] at ho
-  | stop l => simp [Item.pcallMem] at ho
-  | due => simp [Item.pcallMem] at ho
-
-/-- a local operation only looks at the active frame -/
-theorem step_local (s : St) (o : Op) (ho : localOp o = true) :
-    (step s o).2 = (step ⟨s.cur, []⟩ o).2 ∧ (step s o).1.cur = (step ⟨s.cur, []⟩ o).1.cur ∧
-    (step s o).1.parents = s.parents := by
-  cases o with
-  | push d => simp [localOp] at ho
-  | pop => simp [localOp] at ho
-  | reqCpu n => exact ⟨rfl, rfl, rfl⟩
-  | reqMem n => exact ⟨rfl, rfl, rfl⟩
-  | relMem n => exact ⟨rfl, rfl, rfl⟩
-  | stop l => exact ⟨rfl, rfl, rfl⟩
-  | due => exact ⟨rfl, rfl, rfl⟩
-
-theorem runItem_op (a : Acc) (o : Op) :
-    runItem a (.op o) = (({ a with st := (step a.st o).1, events := ⟨a.st.depth, o, (step a.st o).2⟩ :: a.events } : Acc),
-      match (step a.st o).2 with
-      | .ok => Exit.done
-      | .terminated => Exit.killed (killCause a.st.cur o)
-      | .crash => Exit.crashed) := by
-  unfold runItem; simp only; cases (step a.st o).2 <;> rfl
+  rcases requireMem_live f' n hl' with ⟨ht', e'⟩ | ⟨_, _, e'⟩ | ⟨ht', hs', ha', e'⟩
+  · rcases requireMem_live f n hl with ⟨_, e⟩ | ⟨ht, _, _⟩ | ⟨ht, _, _, _⟩
+    · rw [e, e']; exact ⟨rfl, h⟩
+    · rw [h.tm, ht'] at ht; cases ht
+    · rw [h.tm, ht'] at ht; cases ht
+  · rw [e'] at hnk; exact absurd rfl hnk
+  · have hb' : (f'.used.Memory + n).toNat < f'.hard.Memory.toNat := by
+      rcases (atLimit_false_iff _ _).mp ha' with h0 | h0
+      · exact absurd h0 h.hmem0
+      · exact h0
+    have ha : atLimit (f.used.Memory + n) f.hard.Memory = false :=
+      (atLimit_false_iff _ _).mpr (Or.inr (by rw [h.used, h.hmem]; omega))
+    have e := requireMem_charge f n hl (by rw [h.hs]; exact hs') ha
+    have e2 := requireMem_charge f' n hl' hs' ha'
+    rw [e, e2]; exact ⟨rfl, relF_chargeMem h n⟩
 
 mutual
-  theorem sim_body (δ : Nat) (a a' : Acc) (body : List Item) (hw : bodyPcallMem body = true)
+  theorem sim_body (δ B b : Nat) (a a' : Acc) (body : List Item) (hw : bodyPcallMem body = true)
+      (hlr : bodyLocalRel B b body)
       (hr : RelS δ a.st a'.st) (hi : Inv a.st) (hi' : Inv a'.st) (hl' : a'.st.cur.live = true)
-      (hs' : a'.st.cur.hardStopped = false) (hnk : NotKilled (runBody a' body).2) :
+      (hs' : a'.st.cur.hardStopped = false) (hB : a.st.cur.hard.Memory.toNat ≤ B)
+      (hb : b ≤ a'.st.cur.used.Memory.toNat) (hnk : NotKilled (runBody a' body).2) :
       (runBody a body).2 = (runBody a' body).2 ∧ RelS δ (runBody a body).1.st (runBody a' body).1.st := by
     match body with
     | [] => exact ⟨rfl, hr⟩
     | it :: rest =>
       have hw' : it.pcallMem = true ∧ bodyPcallMem rest = true := by
         have := hw; unfold bodyPcallMem at this; simpa using this
+      have hlr' : it.localRel B b ∧ bodyLocalRel B (it.bal b) rest := by
+        have := hlr; unfold bodyLocalRel at this; exact this
       have hl : a.st.cur.live = true := by rw [hr.live]; exact hl'
       have g1 := good_item a it (pcallMem_wf it hw'.1) hi hl
       have g1' := good_item a' it (pcallMem_wf it hw'.1) hi' hl'
-      have m1' := memrun_item a' it hw'.1 hi' hl' hs' hr.hmem0
-      -- the item of the primed run is not killed either
+      have hB' : a'.st.cur.hard.Memory.toNat ≤ B := by have := hr.hmem; omega
+      have m1' := memrun_item B b a' it hw'.1 hlr'.1 hi' hl' hs' hr.hmem0 hB' hb
       have hnk1 : NotKilled (runItem a' it).2 := by
         intro res hk
         have : (runBody a' (it :: rest)).2 = .killed res := by
@@ -798,7 +857,7 @@ mutual
           cases hri : runItem a' it with
           | mk x e => rw [hri] at hk; simp only at hk; subst hk; rfl
         exact hnk res this
-      have s1 := sim_item δ a a' it hw'.1 hr hi hi' hl' hs' hnk1
+      have s1 := sim_item δ B b a a' it hw'.1 hlr'.1 hr hi hi' hl' hs' hB hb hnk1
       unfold runBody at hnk ⊢
       cases hri : runItem a it with
       | mk a1 e1 =>
@@ -812,70 +871,110 @@ mutual
           cases e1 with
           | done =>
             simp only at hnk ⊢
-            exact sim_body δ a1 a1' rest hw'.2 hrel g1.inv g1'.inv (g1'.live (fun _ h => nomatch h)) m1'.nostop hnk
+            exact sim_body δ B (it.bal b) a1 a1' rest hw'.2 hlr'.2 hrel g1.inv g1'.inv
+              (g1'.live (fun _ h => nomatch h)) m1'.nostop (by rw [g1.hard]; exact hB) (m1'.bal rfl) hnk
           | error => exact ⟨rfl, hrel⟩
           | killed r => exact ⟨rfl, hrel⟩
           | crashed => exact ⟨rfl, hrel⟩
 
-  theorem sim_item (δ : Nat) (a a' : Acc) (it : Item) (hw : it.pcallMem = true)
+  theorem sim_item (δ B b : Nat) (a a' : Acc) (it : Item) (hw : it.pcallMem = true) (hlr : it.localRel B b)
       (hr : RelS δ a.st a'.st) (hi : Inv a.st) (hi' : Inv a'.st) (hl' : a'.st.cur.live = true)
-      (hs' : a'.st.cur.hardStopped = false) (hnk : NotKilled (runItem a' it).2) :
+      (hs' : a'.st.cur.hardStopped = false) (hB : a.st.cur.hard.Memory.toNat ≤ B)
+      (hb : b ≤ a'.st.cur.used.Memory.toNat) (hnk : NotKilled (runItem a' it).2) :
       (runItem a it).2 = (runItem a' it).2 ∧ RelS δ (runItem a it).1.st (runItem a' it).1.st := by
     match it with
     | .err => simp [Item.pcallMem] at hw
     | .op o =>
-      have hloc : localOp o = true := pcallMem_wf (.op o) hw
-      have l := step_local a.st o hloc
-      have l' := step_local a'.st o hloc
-      rw [runItem_op] at hnk ⊢
-      rw [runItem_op]
-      have hnt : (step ⟨a'.st.cur, []⟩ o).2 ≠ .terminated := by
-        intro hc
-        rw [← l'.1] at hc
-        exact hnk (killCause a'.st.cur o) (by simp only [hc])
-      obtain ⟨ho, hrel⟩ := sim_op hr hl' o hw hnt
-      have hout : (step a.st o).2 = (step a'.st o).2 := by rw [l.1, l'.1, ho]
-      refine ⟨?_, ?_⟩
-      · simp only [hout]
-        cases hc : (step a'.st o).2 with
+      cases o with
+      | reqMem n =>
+        rw [runItem_op] at hnk ⊢
+        rw [runItem_op]
+        have hst : step a.st (.reqMem n) = (⟨(a.st.cur.requireMem n).1, a.st.parents⟩, (a.st.cur.requireMem n).2) := rfl
+        have hst' : step a'.st (.reqMem n) = (⟨(a'.st.cur.requireMem n).1, a'.st.parents⟩, (a'.st.cur.requireMem n).2) := rfl
+        rw [hst'] at hnk
+        rw [hst, hst']
+        have hnt : (a'.st.cur.requireMem n).2 ≠ .terminated := by
+          intro hc
+          exact hnk (killCause a'.st.cur (.reqMem n)) (by simp only [hc])
+        obtain ⟨ho, hrel⟩ := sim_req hr hl' n hnt
+        refine ⟨?_, hrel⟩
+        simp only [ho]
+        cases hc : (a'.st.cur.requireMem n).2 with
         | ok => rfl
         | crash => rfl
-        | terminated => rw [l'.1] at hc; exact absurd hc hnt
-      · show RelF δ (step a.st o).1.cur (step a'.st o).1.cur
-        rw [l.2.1, l'.2.1]; exact hrel
+        | terminated => exact absurd hc hnt
+      | relMem n =>
+        have hn : n.toNat ≤ b := by unfold Item.localRel at hlr; exact hlr
+        have hu : a.st.cur.used = a'.st.cur.used := hr.used
+        rw [runItem_op, runItem_op, step_relMem_local a'.st n hr.hmem0 (by omega),
+          step_relMem_local a.st n hr.hmem_ne (by rw [hu]; omega)]
+        refine ⟨rfl, ?_, hr.status, hr.stop, hr.flags, hr.tc, hr.tm, hr.hcpu, hr.hms, hr.scpu, hr.sms, hr.hmem, hr.hmem0⟩
+        show ({ a.st.cur.used with Memory := a.st.cur.used.Memory - n } : RuntimeResources) =
+          { a'.st.cur.used with Memory := a'.st.cur.used.Memory - n }
+        rw [hu]
+      | push d => simp [Item.pcallMem] at hw
+      | pop => simp [Item.pcallMem] at hw
+      | reqCpu n => simp [Item.pcallMem] at hw
+      | stop l => simp [Item.pcallMem] at hw
+      | due => simp [Item.pcallMem] at hw
     | .call d body =>
       have hw' : d = CtxDef.none ∧ bodyPcallMem body = true := by
         have := hw; unfold Item.pcallMem at this; simpa using this
       obtain ⟨rfl, hwb⟩ := hw'
+      have hlrb : bodyLocalRel B 0 body := by unfold Item.localRel at hlr; exact hlr
       have hwf := bodyPcallMem_wf body hwb
       have hl : a.st.cur.live = true := by rw [hr.live]; exact hl'
       have hi0 : Inv (push a.st CtxDef.none) := inv_step (.push CtxDef.none) hi hl
       have hi0' : Inv (push a'.st CtxDef.none) := inv_step (.push CtxDef.none) hi' hl'
       have gb := good_body { a with st := push a.st CtxDef.none } body hwf hi0 rfl
       have gb' := good_body { a' with st := push a'.st CtxDef.none } body hwf hi0' rfl
-      have hr0 : RelS δ (push a.st CtxDef.none) (push a'.st CtxDef.none) :=
-        relF_child hr hi'.1
+      have hr0 : RelS δ (push a.st CtxDef.none) (push a'.st CtxDef.none) := relF_child hr hi'.1
+      have hB' : a'.st.cur.hard.Memory.toNat ≤ B := by have := hr.hmem; omega
+      have hBc : (a.st.cur.child CtxDef.none).hard.Memory.toNat ≤ B :=
+        Nat.le_trans (child_none_mem_le a.st.cur) hB
+      have hBc' : (a'.st.cur.child CtxDef.none).hard.Memory.toNat ≤ B :=
+        Nat.le_trans (child_none_mem_le a'.st.cur) hB'
+      have mb' := memrun_body B 0 { a' with st := push a'.st CtxDef.none } body hwb hlrb hi0' rfl hs'
+        (child_none_mem_ne hi'.1 hr.hmem0) hBc' (Nat.zero_le _)
+      -- no release of the bodies reaches the callers (needed for the propagation and for the pop)
+      have mb := memrun_body B 0 { a with st := push a.st CtxDef.none } body hwb hlrb hi0 rfl
+        (by show a.st.cur.hardStopped = false; rw [hr.hs]; exact hs')
+        (child_none_mem_ne hi.1 hr.hmem_ne) hBc (Nat.zero_le _)
       -- the body of the primed run is not killed: otherwise the bracket would propagate the termination
       have hnkb : NotKilled (runBody { a' with st := push a'.st CtxDef.none } body).2 := by
         intro res hk
-        have mb := memrun_body { a' with st := push a'.st CtxDef.none } body hwb hi0' rfl hs'
-          (child_none_mem_ne hi'.1 hr.hmem0)
-        have := mb.cause res hk
+        have := mb'.cause res hk
         subst this
-        exact hnk _ (limitless_bracket_propagates_mem a' CtxDef.none body hwf hi' hl' rfl hr.hmem0 hk).1
-      have sb := sim_body δ { a with st := push a.st CtxDef.none } { a' with st := push a'.st CtxDef.none } body hwb
-        hr0 hi0 hi0' rfl hs' hnkb
+        have hund : ∀ p' ps', (runBody { a' with st := push a'.st CtxDef.none } body).1.st.parents = p' :: ps' →
+            p'.used.Memory = a'.st.cur.used.Memory := by
+          intro q qs hq
+          have := mb'.parents
+          rw [hq] at this
+          have : q :: qs = a'.st.cur :: a'.st.parents := this
+          injection this with h1 _; rw [h1]
+        exact hnk _ (limitless_bracket_propagates_mem a' CtxDef.none body hwf hi' hl' rfl hr.hmem0 hk hund).1
+      have sb := sim_body δ B 0 { a with st := push a.st CtxDef.none } { a' with st := push a'.st CtxDef.none } body hwb
+        hlrb hr0 hi0 hi0' rfl hs' hBc (Nat.zero_le _) hnkb
       cases hrb : runBody { a with st := push a.st CtxDef.none } body with
       | mk a1 ex =>
         cases hrb' : runBody { a' with st := push a'.st CtxDef.none } body with
         | mk a1' ex' =>
           rw [hrb, hrb'] at sb
-          rw [hrb] at gb
-          rw [hrb'] at gb' hnkb
+          rw [hrb] at gb mb
+          rw [hrb'] at gb' hnkb mb'
           obtain ⟨he, hrel⟩ := sb
           simp only at he; subst he
-          obtain ⟨_, _, _, _, hrun⟩ := call_unfold a CtxDef.none body a1 ex hrb gb hl
-          obtain ⟨_, _, _, _, hrun'⟩ := call_unfold a' CtxDef.none body a1' ex hrb' gb' hl'
+          obtain ⟨p1, ps1, hpe, _, _, _, _, _, _, _, hrun⟩ := call_unfold a CtxDef.none body a1 ex hrb gb hl
+          obtain ⟨p1', ps1', hpe', _, _, _, _, _, _, _, hrun'⟩ := call_unfold a' CtxDef.none body a1' ex hrb' gb' hl'
+          have e1 : p1 = a.st.cur := by
+            have := mb.parents; rw [hpe] at this
+            have : p1 :: ps1 = a.st.cur :: a.st.parents := this
+            injection this
+          have e1' : p1' = a'.st.cur := by
+            have := mb'.parents; rw [hpe'] at this
+            have : p1' :: ps1' = a'.st.cur :: a'.st.parents := this
+            injection this
+          subst e1 e1'
           rw [hrun, hrun']
           have hab := relS_afterBody ex hrel
           have hch : RelF δ (charged a.st.cur (afterBody ex a1.st).cur) (charged a'.st.cur (afterBody ex a1'.st).cur) :=
